@@ -104,6 +104,11 @@ class Driver:
         else:
             self.obj = MultiSetup_PreGER(fs0, [list(r) for r in refs], self.user)
         self.cur = [a.copy() for a in d0]
+        # records carried in single precision: two correct evaluations of one operation agree to a few float32 roundings only when they traverse
+        # the memory alike, and every further IIR step amplifies that difference (measured: 1e-8 after a detrend, 3e-6 after the next
+        # decimation). There the oracle is the per-step one - scipy applied to what the object holds before the step - at 1e-5; rollback still
+        # returns to the initial records. Double precision keeps the whole-history model at 1e-9.
+        self.single = any(np.asarray(a).dtype == np.float32 for a in d0)
         self.fs = fs0
         self.last_T_change = None  # ("decimate", q) or ("init",)
         self.hist = []
@@ -124,6 +129,10 @@ class Driver:
             self.fs = self.fs0
             self.last_T_change = None
         else:
+            if self.single:
+                held = [self.obj.data] if self.kind == "single" else list(self.obj.datasets)
+                if len(held) == len(self.cur) and all(np.shape(h_) == np.shape(c_) for h_, c_ in zip(held, self.cur)):
+                    self.cur = [np.array(h_, copy=True, order="K") for h_ in held]
             try:
                 new, nfs = model_apply(self.cur, self.fs, op, kw)
                 model_exc = None
@@ -181,6 +190,8 @@ class Driver:
         fs, cur = self.fs, self.cur
 
         def chk(attr, got, exp, tol=1e-9):
+            if self.single and tol == 1e-9:
+                tol = 1e-5
             if not close(got, exp, tol):
                 self.fail(f"{kind}:{attr}:after_{op}", f"{attr} = {np.asarray(got).ravel()[:4]}{'...' if np.size(got) > 4 else ''} (shape {np.shape(got)}), model {np.asarray(exp).ravel()[:4]} (shape {np.shape(exp)})")
                 return False
